@@ -765,6 +765,9 @@ class Screen(BaseScreen, RealTerminal):
         new_row = row[:-1]
         z_attr, z_cs, last_text = row[-1]
         last_cols = str_util.calc_width(last_text, 0, len(last_text))
+        if last_cols == 0:
+            # the last run holds only zero-width characters: it is no Z to slide into place
+            return row, 0, None
         last_offs, z_col = str_util.calc_text_pos(last_text, 0, len(last_text), last_cols - 1)
         if last_offs == 0:
             if not new_row:
